@@ -478,6 +478,16 @@ fn build_private_batch_constraints(
     debug_assert_eq!(aggregated_output::BLOCK_NUMBER_OFFSET, 7);
 }
 
+/// Verification hook: build the wrapper constraints over caller-supplied targets.
+#[cfg(feature = "verif-hooks")]
+pub fn verif_build_private_batch_wrapper(
+    builder: &mut CircuitBuilder<F, D>,
+    targets: &PrivateBatchCircuitTargets,
+    n_leaf: usize,
+) {
+    build_private_batch_constraints(builder, targets, n_leaf)
+}
+
 fn hash_dummy_nullifier_pre_image(
     builder: &mut CircuitBuilder<F, D>,
     pre_image: [Target; 4],
